@@ -23,6 +23,8 @@ def in_kh(b):
 
 def run(ctx, rep):
     facts = ctx.facts()
+    rep.rule('E9.R11', 'Cob::stack drops an operand only when it is an identity cobordism (guards folded over a finite model of cobordisms)')
+    e9_relations.check_stack_shortcuts(facts, rep)
     rep.rule('E33', e33_scans.__doc__.strip().split('\n')[0])
     e33_scans.run_for(facts, rep, 'Bar-Natan category', ['yui_kh::kh::internal', 'LcCobTrait'], 12)
     import fixtures
